@@ -154,8 +154,13 @@ class Ctx:
                 return
         if any(v["fingerprint"] == fingerprint for v in self.violations):
             return
-        h = hashlib.sha1((self.pid + fingerprint).encode()).hexdigest()[:10]
+        # one file per (tree, fingerprint): runs against different scratch worktrees do not overwrite each other's
+        # replay files, and a --replay run never rewrites the file it was given
+        salt = "" if os.path.realpath(REPO) == "/repo" else os.path.realpath(REPO)
+        h = hashlib.sha1((self.pid + fingerprint + salt).encode()).hexdigest()[:10]
         path = os.path.join(REPLAYS, "%s-%s.json" % (self.pid, h))
+        if self.replay and os.path.exists(path) and os.path.realpath(path) == os.path.realpath(self.replay):
+            path = os.path.join(REPLAYS, "%s-%s.again.json" % (self.pid, h))
         obj = {"property_id": self.pid, "fingerprint": fingerprint, "what": what,
                "failing_input_found": bool(found_input), "tier": self.tier, "seed": self.seed,
                "replay": replay_obj}
@@ -207,13 +212,13 @@ class Ctx:
         self.bins[pkg] = out
         rc, log, dt = sh(["go", "build", "-tags", tags] + extra + ["-o", out, "./" + pkg], cwd=HARNESS,
                          env=go_env(), timeout=timeout)
-        for attempt in range(3):
+        for attempt in range(5):
             if not (rc != 0 and (".cache/go-build" in log or "go-build" in log) and
                     ("no such file or directory" in log or "no space left on device" in log)):
                 break
             # an entry of the shared Go build cache vanished (or the disk was full) while the build ran: that is a fact
             # about the machine, not about /repo - wait a little and build again
-            time.sleep(5 * (attempt + 1))
+            time.sleep((10, 20, 40, 60, 90)[attempt])
             rc, log, dt = sh(["go", "build", "-tags", tags] + extra + ["-o", out, "./" + pkg], cwd=HARNESS,
                              env=go_env(), timeout=timeout)
         self.log("go build ./%s rc=%d (%.1fs)" % (pkg, rc, dt))
